@@ -30,7 +30,8 @@ SIGNED_CHOICE = ('ND_DIV', 'ND_MOD', 'ND_SHR', 'ND_LT', 'ND_LE')
 # (typing relation of add_type, proved by R01.2): comparisons and logical operators take any scalar operands,
 # the condition of ?: is any scalar; arithmetic children share the node's type.
 FLOATABLE_INT_NODE = {'ND_EQ': ('lhs', 'rhs'), 'ND_NE': ('lhs', 'rhs'), 'ND_LT': ('lhs', 'rhs'), 'ND_LE': ('lhs', 'rhs'),
-                      'ND_NOT': ('lhs',), 'ND_LOGAND': ('lhs', 'rhs'), 'ND_LOGOR': ('lhs', 'rhs'), 'ND_COND': ('cond',)}
+                      'ND_NOT': ('lhs',), 'ND_LOGAND': ('lhs', 'rhs'), 'ND_LOGOR': ('lhs', 'rhs'), 'ND_COND': ('cond',),
+                      'ND_CAST': ('lhs',)}      # ND_CAST: only when the target is _Bool (see r076)
 FLOATABLE_FLO_NODE = {'ND_ADD': ('lhs', 'rhs'), 'ND_SUB': ('lhs', 'rhs'), 'ND_MUL': ('lhs', 'rhs'), 'ND_DIV': ('lhs', 'rhs'),
                       'ND_NEG': ('lhs',), 'ND_COND': ('cond', 'then', 'els'), 'ND_COMMA': ('rhs',), 'ND_CAST': ('lhs',)}
 # kinds whose 64-bit host result can leave the range of a 32-bit unsigned node type although the operands are in range
@@ -146,6 +147,12 @@ class Folder:
         """eval_double paths that a floating-typed node can take"""
         return [p for p in self.paths('eval_double', kind) if self._consistent(p, self.FLOLIKE)]
 
+    def admitted(self, kind):
+        """node types the typing relation admits for a kind (arithmetic results are never _Bool)"""
+        if kind in BINOPS or kind in UNOPS or kind in TRUTH:
+            return tuple(t for t in self.INTLIKE if t != 'bool')
+        return self.INTLIKE
+
     def has_arm(self, fname, kind):
         ps = self.int_paths(kind) if fname == 'eval2' else self.flo_paths(kind)
         return any(p.outcome[0] == 'ret' for p in ps)
@@ -203,9 +210,18 @@ def run(P, rep, tier):
 
 # ------------------------------------------------------------------ R07.8 ---
 def _core(v):
-    """value under its conversions; the chain of conversions (inner first)"""
-    cc = cast_chain(v, lambda x: True)
-    return cc[1], cc[0]
+    """value under its conversions; the chain of conversions (inner first).  `x != 0` counts as the
+    conversion of x to _Bool (that is how a reduction to a _Bool node type is written)"""
+    chain = []
+    while True:
+        if v[0] == 'cast':
+            chain.append((v[1], v[2])); v = v[3]
+        elif v[0] == 'bin' and v[1] == '!=' and strip_widening(v[3]) == ('int', 0) and v[4][0] in ('i', 'b'):
+            chain.append((('b',), v[4])); v = v[2]
+        else:
+            break
+    chain.reverse()
+    return v, chain
 
 
 def _chain_is_wide(chain, floating=False):
@@ -220,6 +236,27 @@ def _chain_is_wide(chain, floating=False):
             if to[0] == 'b' or (to[0] == 'i' and to[1] < 64) or to[0] == 'f':
                 return False
     return True
+
+
+def _outer_ok(F, p, chain, floating):
+    """the conversions applied to a passed-through value keep it: none narrows, or (integer folder) the
+    narrowing is exactly the reduction to the node's own type for every node type the path admits"""
+    if _chain_is_wide(chain, floating):
+        return True
+    if floating or any(to[0] not in ('i', 'b') for to, frm in chain):
+        return False
+    sig = chain_signature(chain)
+    ident = oracle_signature(64, True)
+    seen = False
+    for t in F.INTLIKE:
+        if not F.facts(node=t).select([p]):
+            continue
+        seen = True
+        rec = F.trec[t]
+        want = oracle_signature(rec['size'] * 8, not rec['is_unsigned'], boolean=(t == 'bool')) if t != 'ptr' else ident
+        if sig != want and sig != ident:
+            return False
+    return seen
 
 
 def r078(F, rep):
@@ -291,7 +328,7 @@ def r078(F, rep):
             except Unsupported as e:
                 rep.undecided('R07.8', '%s:%s:%s' % (U, fname, kind), 'cannot summarise: %s' % e)
                 continue
-            rets = [p for p in ps if p.outcome[0] == 'ret']
+            rets = [p for p in ps if p.outcome[0] == 'ret' and (floating or F._consistent(p, F.admitted(kind)))]
             if not rets:
                 # no arm: for the integer folder every operator must be foldable; the floating folder may refuse
                 if not floating or kind in DBL_BINOPS or kind in ('ND_NEG', 'ND_COND', 'ND_COMMA', 'ND_NUM'):
@@ -312,7 +349,7 @@ def r078(F, rep):
                     r = as_rec(core)
                     if not r or r[1] != 'rhs':
                         good = False; msg = 'the value is %s, not the folded right operand' % show(p.outcome[1])
-                    elif not _chain_is_wide(chain, floating):
+                    elif not _outer_ok(F, p, chain, floating):
                         good = False; msg = 'the right operand\'s value is narrowed: %s' % show(p.outcome[1])
                 ob(fname, kind, 'yields-rhs', good, msg)
             elif kind == 'ND_NUM':
@@ -322,9 +359,57 @@ def r078(F, rep):
                     core, chain = _core(p.outcome[1])
                     if core != ('fld', NODE, want):
                         good = False; msg = 'the value is %s, not node->%s' % (show(p.outcome[1]), want)
-                    elif not _chain_is_wide(chain, floating):
+                    elif not _outer_ok(F, p, chain, floating):
                         good = False; msg = 'the literal\'s value is narrowed: %s' % show(p.outcome[1])
                 ob(fname, kind, 'yields-literal', good, msg)
+    _check_dbl_cast(F, ob)
+
+
+def _check_dbl_cast(F, ob):
+    """eval_double of ND_CAST: the operand's value converted to double with the operand's own signedness"""
+    kind = 'ND_CAST'
+    try:
+        ps = [p for p in F.flo_paths(kind) if p.outcome[0] == 'ret']
+    except Unsupported as e:
+        ob('eval_double', kind, 'converts-operand', None, 'cannot summarise: %s' % e)
+        return
+    if not ps:
+        ob('eval_double', kind, 'arm', False, 'the floating folder has no arm for a cast: `double d = (double)1;` is rejected')
+        return
+    bad = {}
+    for t in F.INTLIKE + F.FLOLIKE:
+        if t == 'ptr':
+            continue
+        rec = F.trec[t]
+        sel = F.facts(lhs=t).select(ps)
+        if not sel:
+            bad['no-path'] = 'no path for an operand of type %s' % t
+        for p in sel:
+            core, chain = _core(p.outcome[1])
+            r = as_rec(core)
+            if not r or r[1] != 'lhs' or r[0] == 'is_const_expr':
+                bad['converts-operand'] = 'a cast of a %s operand yields %s, not a conversion of the folded operand' % (t, show(p.outcome[1])); continue
+            if r[0] == 'eval_double':
+                if not _chain_is_wide(chain, True):
+                    bad['converts-operand'] = 'the operand\'s double value is narrowed: %s' % show(p.outcome[1])
+                continue
+            if t in F.FLOLIKE:
+                continue          # integer folder on a floating operand: R07.6
+            src = None
+            for to, frm in chain:
+                if to[0] == 'f':
+                    src = frm; break
+                if to[0] == 'b' or (to[0] == 'i' and to[1] < 64):
+                    src = ('narrow',); break
+            if src is None or src[0] != 'i' or src[1] != 64:
+                bad['converts-operand'] = 'a cast of a %s operand is folded as %s' % (t, show(p.outcome[1]))
+            elif rec['is_unsigned'] and rec['size'] == 8 and src[2]:
+                bad['u64-operand-converted-as-signed'] = ('a cast of an unsigned 64-bit operand to a floating type is folded as %s: the operand\'s 64-bit value is read as signed, '
+                                                          'so (double)9223372036854775808UL folds to -9.2e18' % show(p.outcome[1]))
+    if not bad:
+        ob('eval_double', kind, 'converts-operand', True, '')
+    for c, m in sorted(bad.items()):
+        ob('eval_double', kind, c, False, m)
 
 
 def _operand_ok(v, want_child, floating):
@@ -370,6 +455,9 @@ def _check_binop(F, ob, fname, kind, op, rets, floating):
         else:
             if T[0] != 'i' or T[1] != 64:
                 good = False; construct = 'host-type'; msg = '`%s` is carried out in %s, not in 64-bit integer arithmetic' % (op, tshow(T))
+        if good and not _outer_ok(F, p, chain, floating):
+            good = False; construct = 'result-narrowed'
+            msg = 'the result is returned as %s: a conversion that is not the reduction to the node\'s own type cuts it' % show(p.outcome[1])
     ob(fname, kind, construct, good, msg)
 
 
@@ -387,6 +475,9 @@ def _check_unop(F, ob, fname, kind, op, rets, floating):
         T = core[3]
         if (floating and (T[0] != 'f' or T[1] < 64)) or (not floating and (T[0] != 'i' or T[1] != 64)):
             good = False; construct = 'host-type'; msg = 'unary `%s` is carried out in %s' % (op, tshow(T))
+        if good and not _outer_ok(F, p, chain, floating):
+            good = False; construct = 'result-narrowed'
+            msg = 'the result is returned as %s: a conversion that is not the reduction to the node\'s own type cuts it' % show(p.outcome[1])
     ob(fname, kind, construct, good, msg)
 
 
@@ -462,7 +553,7 @@ def _check_cond(F, ob, fname, kind, rets, floating):
             good = False
             msg = 'when the condition is %s the arm yields %s, not the folded `%s` operand' % ('non-zero' if c else 'zero', show(p.outcome[1]), want)
             continue
-        if not _chain_is_wide(chain, floating):
+        if not _outer_ok(F, p, chain, floating):
             good = False; msg = 'the selected operand is narrowed: %s' % show(p.outcome[1])
         seen.add(want)
     if good and seen != {'then', 'els'}:
@@ -558,8 +649,13 @@ def _gen_paths(P, kind_value):
         if base == NODE and f == 'kind':
             return ('int', kind_value)
         return None
-    ex = SymExec(P, cu, inline=False, field_hook=hook, max_paths=6000)
-    return ex.run('gen_expr', [NODE])
+    try:
+        # helpers of codegen.c (push/pop/an extracted emitter) are inlined; recursion and the printer are not
+        ex = SymExec(P, cu, opaque=('println', 'gen_expr', 'gen_addr', 'gen_stmt', 'error_tok', 'count'), field_hook=hook, max_paths=6000)
+        return ex.run('gen_expr', [NODE])
+    except Unsupported:
+        ex = SymExec(P, cu, inline=False, field_hook=hook, max_paths=6000)
+        return ex.run('gen_expr', [NODE])
 
 
 def _mnemonics(p):
@@ -608,13 +704,16 @@ def r071(F, P, rep):
         bad = {}      # construct -> message
         und = None
         checked = 0
+        combos = []
         for t in tnames:
             if cmp_kind:
-                tf = F.facts(node='int', lhs=t, rhs=t)
+                combos.append((t, F.facts(node='int', lhs=t, rhs=t)))
             elif kind == 'ND_SHR':
-                tf = F.facts(node=t, lhs=t, rhs='int')
+                for rt in ('int', 'uint', 'long', 'ulong'):      # the count keeps its own type
+                    combos.append((t, F.facts(node=t, lhs=t, rhs=rt)))
             else:
-                tf = F.facts(node=t, lhs=t, rhs=t)
+                combos.append((t, F.facts(node=t, lhs=t, rhs=t)))
+        for t, tf in combos:
             fam_f = set()
             for p in tf.select(fps):
                 core = strip_casts(p.outcome[1])
@@ -655,7 +754,8 @@ def r071(F, P, rep):
                        'an un-reduced operand such as ~0u is -1 in the folder%s)' % (', so ~0u >> 1 folds to 0xffffffff where the generated code computes 0x7fffffff' if kind == 'ND_SHR' else ''))
             grp = cls if rec['size'] == 8 or cls == 'ptr' else ('narrow-unsigned' if fg == 'unsigned' else 'narrow-signed')
             b = bad.setdefault('%s-folded-%s' % (grp, ff), [[], ''])
-            b[0].append(t)
+            if t not in b[0]:
+                b[0].append(t)
             b[1] = 'the folder carries out `%s` as a %s %d-bit host operation, gen_expr emits the %s instruction%s' % (op, ff, bits, fg, why)
         w = '%s:%d' % (U, line_of_kind(u, 'eval2', F.E[kind]))
         for construct, (ts, msg) in sorted(bad.items()):
@@ -785,7 +885,7 @@ def r075(F, rep):
             pure = bool(rets) and all(all(e[0] == 'call' and e[1] in ('eval2', 'eval_double', 'add_type', 'is_flonum', 'is_integer') for e in p.events) for p in rets)
             if pure and (kind in BINOPS or kind in UNOPS or kind in TRUTH or kind in ('ND_COND', 'ND_COMMA', 'ND_CAST', 'ND_NUM')):
                 rep.ob('R07.5', '%s:is_const_expr:%s/not-accepted' % (U, kind), False,
-                       'eval2 folds %s but is_const_expr does not accept it: `int a[7%%4];` is taken for a variable-length array (at file scope the compiler dereferences a null current function and dies with SIGSEGV; in a function a VLA is allocated)' % kind,
+                       'eval2 folds %s but is_const_expr does not accept it: an array bound using it (`int a[7%%4];`) is taken for a variable-length array: at file scope the object gets an 8-byte VLA slot and sizeof(a) kills the compiler with SIGSEGV, in a function a VLA is allocated' % kind,
                        where='%s:%d' % (U, u.fn('is_const_expr').line))
 
 
@@ -802,6 +902,9 @@ def r076(F, rep):
                 rep.undecided('R07.6', '%s:%s:%s' % (U, fname, kind), 'cannot summarise: %s' % e)
                 continue
             rets = [p for p in ps if p.outcome[0] == 'ret']
+            if fname == 'eval2' and kind == 'ND_CAST':
+                # truncation towards zero is the C conversion to every integer type except _Bool
+                rets = F.facts(node='bool').select(rets)
             if not rets:
                 continue
             bad = set()
@@ -815,7 +918,7 @@ def r076(F, rep):
                         bad.add(c)
             construct = 'float-operand-through-eval' + ((':' + ','.join(sorted(bad))) if bad else '')
             ex = {'ND_EQ': '1.5 == 1.7 folds to 1', 'ND_NE': '1.5 != 1.7 folds to 0', 'ND_LT': '1.5 < 1.7 folds to 0', 'ND_LE': '1.7 <= 1.5 folds to 1',
-                  'ND_NOT': '!0.5 folds to 1', 'ND_LOGAND': '0.5 && 1 folds to 0', 'ND_LOGOR': '0.5 || 0 folds to 0', 'ND_COND': '0.5 ? 1 : 2 folds to 2'}.get(kind, '')
+                  'ND_NOT': '!0.5 folds to 1', 'ND_LOGAND': '0.5 && 1 folds to 0', 'ND_LOGOR': '0.5 || 0 folds to 0', 'ND_COND': '0.5 ? 1 : 2 folds to 2', 'ND_CAST': 'the target is _Bool: (_Bool)0.5 folds to 0'}.get(kind, '')
             rep.ob('R07.6', '%s:%s:%s/%s' % (U, fname, kind, construct), not bad,
                    '%s of %s evaluates its operand(s) %s with the integer folder although the operand may have floating type: the value is truncated towards zero before the operator is applied%s' % (
                        fname, kind, ','.join(sorted(bad)), (' (' + ex + ')') if ex and fname == 'eval2' else ''),
@@ -956,7 +1059,7 @@ def r077(F, P, rep):
                                 q = q.parent
                             if q is not None and q.kind == 'ImplicitCastExpr' and q.cast_kind == 'IntegralCast':
                                 W = ctype(q.dtype)
-                                if W[0] == 'i' and W[1] > T[1] and _is_store_or_arg(q):
+                                if W[0] == 'i' and W[1] > T[1]:
                                     wide_use = (q, W)
                 if wide_use is None:
                     rep.ob('R07.7', key, True, '', where='%s:%d' % (un, c.line))
@@ -1070,4 +1173,6 @@ def _dest_name(q):
         return p.name
     if p is not None and p.kind == 'CallExpr':
         return 'arg-of-%s' % (p.callee() or '?')
+    if p is not None and p.kind in ('BinaryOperator', 'CompoundAssignOperator'):
+        return 'operand of `%s`' % p.opcode
     return 'return'
